@@ -152,5 +152,69 @@ structure PhysFeasible (i : Inp α) (a : Alloc α) : Prop where
 /-- the worst month of an allocation: the number the model reports as percent fed -/
 def worstMonth (i : Inp α) (a : Alloc α) : α := minOver (pct i a) i.nmonths
 
+/-! ### the feed-maximising round -/
+
+/-- `v` is pinned inside the tolerance band around `minCons` (`±0.01 %` for fewer than 10 million
+    people, `±0.001 %` otherwise): people keep what the human-maximising round gave them -/
+def Pinned (i : Inp α) (v minCons : α) : Prop :=
+  (if i.pop < 1e7 then 0.9999 * minCons else 0.99999 * minCons) ≤ v ∧
+  v ≤ (if i.pop < 1e7 then 1.0001 * minCons else 1.00001 * minCons)
+
+/-- feed and biofuel share caps of one resilient food in month `m` -/
+def ShareOK (i : Inp α) (on : Bool) (ratio : α) (vF vB : Nat → α) (limF limB : α) (m : Nat) : Prop :=
+  on = true →
+    vF m * ratio ≤ limF / 100.0 * at' i.feed m ∧
+    vB m * ratio ≤ limB / 100.0 * at' i.biofuel m
+
+/-- the weighted total of human-edible food turned into feed and biofuel (feed counts twice) -/
+def feedValue (i : Inp α) (a : Alloc α) : α :=
+  2.0 / 3.0 * (List.range i.nmonths).foldl (fun acc m => acc + feedTotal i a.toVar m) 0
+    + (List.range i.nmonths).foldl (fun acc m => acc + biofuelTotal i a.toVar m) 0 / 3.0
+
+/-- a physically feasible allocation of the feed-maximising round: the supply clauses of
+    `PhysFeasible` without the obligation to use stocks up; feed and biofuel within their
+    ceilings and never rising; human consumption pinned to the result of the human round -/
+structure PhysFeasibleFeed (i : Inp α) (a : Alloc α) : Prop where
+  nonneg : ∀ k m, 0 ≤ a.toVar (.mv k m)
+  stored : i.addStored = true →
+    (∀ m, m < i.nmonths → (i.storeBetweenYears = true ∨ m ≤ 12) →
+        cum (storedUse i a.toVar) m ≤ i.storedInitial) ∧
+    (i.storeBetweenYears = false → ∀ m, m < i.nmonths → 12 < m →
+        a.sfHumans m = 0 ∧ a.sfFeed m = 0 ∧ a.sfBiofuel m = 0)
+  crops : i.addOutdoor = true →
+    ∀ m, m < i.nmonths → cum (cropUse i a.toVar) m ≤ cum (at' i.cropProd) m
+  meatStored : i.addMeat = true → i.storeBetweenYears = true → ∀ m, m < i.nmonths →
+    cum (meatUse i a.toVar) m ≤ i.meatSummed ∧ cum (meatUse i a.toVar) m ≤ at' i.maxCulled m
+  meatFresh : i.addMeat = true → i.storeBetweenYears = false → ∀ m, m < i.nmonths →
+    meatUse i a.toVar m ≤ at' i.slaughtered m
+  scp : i.addScp = true → ∀ m, m < i.nmonths → scpUse i a.toVar m ≤ at' i.scp m
+  cs : i.addCs = true → ∀ m, m < i.nmonths → csUse i a.toVar m ≤ at' i.cs m
+  seaweed : i.addSeaweed = true → ∀ m, m < i.nmonths →
+    (i.initialSeaweed ≤ a.swWet m ∧ a.swWet m ≤ i.maxDensity * at' i.builtArea m ∧
+      i.initialBuiltArea ≤ a.usedArea m ∧ a.usedArea m ≤ at' i.builtArea m) ∧
+    (if m = 0 then
+        a.swWet m = i.initialSeaweed ∧ a.usedArea m = i.initialBuiltArea ∧
+        a.swHumans 0 = 0 ∧ a.swFeed 0 = 0 ∧ a.swBiofuel 0 = 0
+     else a.swWet m = seaweedLedger i a.toVar m)
+  /-- feed and biofuel within the ceilings, and never more than the month before -/
+  ceilings : anyFeedVar i = true → ∀ m, m < i.nmonths →
+    (feedTotal i a.toVar m ≤ at' i.maxFeed m ∧ biofuelTotal i a.toVar m ≤ at' i.maxBiofuel m) ∧
+    (0 < m → feedTotal i a.toVar m ≤ feedTotal i a.toVar (m - 1) ∧
+             biofuelTotal i a.toVar m ≤ biofuelTotal i a.toVar (m - 1))
+  /-- people keep their share of each of the six foods -/
+  pinSeaweed : i.addSeaweed = true → ∀ m, m < i.nmonths →
+    Pinned i (a.swHumans m * i.seaweedKcals) (at' i.minSeaweed m)
+  pinCrops : i.addOutdoor = true → ∀ m, m < i.nmonths → Pinned i (a.cropHumans m) (at' i.minCrops m)
+  pinStored : i.addStored = true → ∀ m, m < i.nmonths → Pinned i (a.sfHumans m) (at' i.minStored m)
+  pinMeat : i.addMeat = true → ∀ m, m < i.nmonths → Pinned i (a.meatEaten m) (at' i.minMeat m)
+  pinScp : i.addScp = true → ∀ m, m < i.nmonths → Pinned i (a.scpHumans m) (at' i.minScp m)
+  pinCs : i.addCs = true → ∀ m, m < i.nmonths → Pinned i (a.csHumans m) (at' i.minCs m)
+  shareSeaweed : ∀ m, m < i.nmonths →
+    ShareOK i i.addSeaweed i.seaweedKcals a.swFeed a.swBiofuel i.limSwF i.limSwB m
+  shareScp : ∀ m, m < i.nmonths → ShareOK i i.addScp 1 a.scpFeed a.scpBiofuel i.limScpF i.limScpB m
+  shareCs : ∀ m, m < i.nmonths → ShareOK i i.addCs 1 a.csFeed a.csBiofuel i.limCsF i.limCsB m
+  /-- the weighted total is a non-negative number -/
+  valueNonneg : 0 ≤ feedValue i a
+
 end
 end Allfed.AllocSpec
